@@ -292,6 +292,18 @@ def binop(eng, op, a, b):
                 f = lambda x, y: (T.zi(x) / T.zi(y)) if T.is_int_valued(x) else T.floordiv(x, y)
             else:
                 f = lambda x, y: (T.zi(x) % T.zi(y)) if T.is_int_valued(x) else T.mod(x, y)
+    if isinstance(op, ast.Div) and (isinstance(a, I.Arr) or isinstance(b, I.Arr)):
+        def f(x, y):
+            # NumPy element-wise division: 0/0 -> nan, c/0 -> +-inf (no exception)
+            ys = T.simp(y) if T.is_sym(y) else y
+            if not T.is_sym(ys) and not isinstance(ys, float) and ys == 0:
+                xs = T.simp(x) if T.is_sym(x) else x
+                if T.is_sym(xs):
+                    raise Unsupported("symbolic value divided by a concrete zero")
+                if isinstance(xs, float) and math.isnan(xs):
+                    return T.NAN
+                return T.NAN if xs == 0 else (T.INF if xs > 0 else -T.INF)
+            return T.truediv(x, y)
     if isinstance(op, ast.Pow):
         f0 = f
 
